@@ -15,4 +15,5 @@ static inline void NAME##_pop_back(NAME *v) { v->len = v->len - 1; } \
 static inline void NAME##_pop_front(NAME *v) { __CPROVER_assert(v->len > 0, "pop_front of a non-empty queue"); v->ptr = v->ptr + 1; v->len = v->len - 1; v->cap = v->cap - 1; } \
 static inline void NAME##_clear(NAME *v) { v->len = 0; }
 #define VEC_OK(v, T) (__CPROVER_is_fresh((v).ptr, (v).cap * sizeof(T)) && (v).len <= (v).cap && (v).cap <= 4096)
+#define VEC_OKN(v, T, N) (__CPROVER_is_fresh((v).ptr, (N) * sizeof(T)) && (v).len <= (N) && (v).cap == (N))   /* fixed ghost capacity: much cheaper for the solver than a symbolic object size */
 #endif
